@@ -153,3 +153,23 @@ Print Assumptions g_cache_purge_sink_eq.
 Print Assumptions g_cache_evict_expired_eq.
 Print Assumptions g_cache_fill_gap_clip_eq.
 Print Assumptions fill_gap_sink_is_source.
+
+(* ------------------------------------------------------------------------------------------ *)
+(* headline theorems of the property files restated on the GENERATED definitions              *)
+
+
+Theorem src_evict_fresh_only : forall ttl t s fuel,
+  heap_inv ttl s -> (length (heap s) <= fuel)%nat ->
+  exists h1 cv1 sk1,
+    g_cache_evict_expired fuel t (heap s) (cover s) (sink s) = RDone (h1, cv1, sk1) /\
+    (forall c, In c cv1 -> In c (cover s) /\ t < cv_t c + ttl) /\
+    (forall c, In c (cover s) -> ~ In c cv1 -> cv_t c + ttl <= t) /\
+    (forall c, In c (cover s) -> (In c cv1 <-> t < cv_t c + ttl)).
+Proof.
+  intros ttl t s fuel Hi Hf.
+  destruct (evict_go t (heap s) (cover s) (sink s)) as [[h1 cv1] sk1] eqn:E.
+  exists h1, cv1, sk1. split.
+  - rewrite g_cache_evict_expired_eq; [rewrite E; reflexivity|exact Hf|exact (hi_bij _ _ Hi)].
+  - exact (fresh_covers_only ttl t s h1 cv1 sk1 Hi E).
+Qed.
+Print Assumptions src_evict_fresh_only.
